@@ -5,8 +5,11 @@ mpsc_relaxed_fifo.h with coq/Mpsc.v, coq/Spsc.v, coq/Mpscr.v + monitors.
 Case encoding (see rt/h_mpsc.c, rt/h_spsc.c, rt/h_mpscr.c):
   mpsc : params [dmax];      ops (1, n*1000+v) push node n data v, (2,_) trypop,
                              (3, v) re-push the node my last trypop returned, data v
-  spsc : params [dmax];      ops (1, n*1000+v), (2,_)
-  mpscr: params [dmax, np];  ops (1, q*10^7+n*1000+v) push as producer q, (2,_)
+  spsc : params [dmax];      ops (1, n*1000+v), (2,_), (3, v) push the node the consumer freed last, data v
+  mpscr: params [dmax, np];  ops (1, q*10^7+n*1000+v) push as producer q, (2,_),
+                             (3, q*10^7+v) push the node the consumer freed last as producer q
+(spsc/mpscr: every node returned by trypop goes onto a free stack; op 3 is a
+no-op returning 0 when the stack is empty.  A recycled node has a stale next.)
 Discipline of every generated case: thread 0 is the only consumer; a node is
 pushed by at most one op and is not a stub; spsc: one producer thread;
 mpscr: one pushing thread per queue."""
@@ -76,19 +79,20 @@ class QueueMon:
                 "and not yet popped" % (self.name, self.npop, self.order[self.npop]))
 
     def popped(self, val):
+        if self.npop < len(self.order) and val == self.order[self.npop]:
+            if not self.linked[self.npop]:
+                return "%s: pop returned value %d before its push executed the link store" % (self.name, val)
+            self.npop += 1
+            return None
+        want = ("value %d" % self.order[self.npop]) if self.npop < len(self.order) else "nothing (all exchanged pushes already popped)"
         if val not in self.order:
-            return "%s: pop returned value %d that was never pushed" % (self.name, val)
-        if self.npop >= len(self.order):
-            return "%s: pop returned value %d but every exchanged push was already popped" % (self.name, val)
-        want = self.order[self.npop]
-        if val != want:
-            if val in self.order[:self.npop]:
-                return "%s: value %d popped twice" % (self.name, val)
-            return "%s: pop returned %d, order of tail exchanges requires %d" % (self.name, val, want)
-        if not self.linked[self.npop]:
-            return "%s: pop returned value %d before its push executed the link store" % (self.name, val)
-        self.npop += 1
-        return None
+            detail = "it was never pushed"
+        elif val in self.order[:self.npop]:
+            detail = "it was already popped (popped twice)"
+        else:
+            detail = "it was exchanged later"
+        return ("%s: pop returned value %d which is not the oldest unpopped push: order of tail exchanges requires %s; %s"
+                % (self.name, val, want, detail))
 
 
 def make_monitor(kind):
@@ -177,6 +181,8 @@ def make_monitor(kind):
                 if op == PUSH:
                     v = a % 1000
                     q = (a // Q) if kind == "mpscr" else 0
+                elif kind == "mpscr":
+                    v, q = a % 1000, a // Q
                 else:
                     v, q = a, 0
                 if kind == "mpscr" and q != qof(loc - 1):
@@ -313,7 +319,15 @@ def gen_mpsc(ctx, tier, rng):
 
 
 def sp_prog(al, ops):
-    return [(PUSH, al.node() * 1000 + al.val()) if o == PUSH else (POP, 0) for o in ops]
+    out = []
+    for o in ops:
+        if o == PUSH:
+            out.append((PUSH, al.node() * 1000 + al.val()))
+        elif o == REPUSH:
+            out.append((REPUSH, al.val()))
+        else:
+            out.append((POP, 0))
+    return out
 
 
 def gen_spsc(ctx, tier, rng):
@@ -332,30 +346,50 @@ def gen_spsc(ctx, tier, rng):
                     if keep < 1.0 and rng.random() > keep:
                         continue
                     cases.append(core.fmt_case([200], [p0, p1], [1] * (5 * pre) + il))
+    # recycling: after k fresh pushes and k pops the free stack holds nodes with
+    # stale next pointers; one recycled push against one or two pops, every interleaving
+    for k in (1, 2):
+        for cons in ([POP], [POP, POP]):
+            for extra in ([], [PUSH]):
+                al = Alloc(2)
+                p0 = sp_prog(al, [POP] * k + cons)
+                p1 = sp_prog(al, [PUSH] * k + [REPUSH] + extra)
+                pre = [1] * (5 * k) + [0] * (6 * k)
+                counts = [6 * len(cons), 6 + 5 * len(extra)]
+                total = 1
+                ils = (core.interleavings(counts) if len(cons) == 1 and not extra
+                       else [random_interleaving(rng, counts) for _ in range(2500 if tier == "quick" else 40000)])
+                if tier == "thorough" and len(cons) == 2 and not extra:
+                    ils = core.interleavings(counts)
+                for il in ils:
+                    cases.append(core.fmt_case([300], [p0, p1], pre + il))
     n_ex = len(cases)
     nrand = 8000 if tier == "quick" else 120000
     for _ in range(nrand):
         al = Alloc(2)
         p0 = sp_prog(al, [POP] * rng.randint(1, 8))
-        p1 = sp_prog(al, [PUSH] * rng.randint(1, 8))
+        p1 = sp_prog(al, [rng.choice([PUSH, PUSH, REPUSH]) for _ in range(rng.randint(1, 8))])
         progs = [p0, p1] + ([[]] if rng.random() < 0.1 else [])
-        total = 6 * len(p0) + 5 * len(p1)
+        total = 6 * len(p0) + 6 * len(p1)
         length = rng.randint(3, total + 5)
         cases.append(core.fmt_case([600], progs, core.random_sched(rng, 2, max(length, 5), rng.randrange(3))))
     for _ in range(300):      # producer = consumer = thread 0
         al = Alloc(2)
-        ops = [rng.choice([PUSH, POP]) for _ in range(rng.randint(1, 14))]
+        ops = [rng.choice([PUSH, POP, POP, REPUSH]) for _ in range(rng.randint(1, 14))]
         cases.append(core.fmt_case([600], [sp_prog(al, ops)], []))
     cases.append(core.fmt_case([200], [[(POP, 0), (POP, 0)], []], []))
+    cases.append(core.fmt_case([200], [[(POP, 0)], [(REPUSH, 5), (PUSH, 2006), (REPUSH, 7)]], []))
     return cases, n_ex, nrand
 
 
 def mr_prog(al, ops):
-    """ops: POP or ('push', q)"""
+    """ops: POP or ('push', q) or ('recyc', q)"""
     out = []
     for o in ops:
         if o == POP:
             out.append((POP, 0))
+        elif o[0] == "recyc":
+            out.append((REPUSH, o[1] * Q + al.val()))
         else:
             out.append((PUSH, o[1] * Q + al.node() * 1000 + al.val()))
     return out
@@ -381,6 +415,20 @@ def gen_mpscr(ctx, tier, rng):
     p3 = [mr_prog(al, [POP]), mr_prog(al, [("push", 0)]), mr_prog(al, [("push", 2)])]
     for il in [random_interleaving(rng, [15, 5, 5]) for _ in range(3000 if tier == "quick" else 100000)]:
         cases.append(core.fmt_case([300, 3], p3, il))
+    # recycling: one recycled push (stale next) against one or two trypops
+    for npr, pq, rq in ((1, 0, 0), (2, 0, 0), (2, 0, 1), (2, 1, 1)):
+        for cons in ([POP], [POP, POP]):
+            al = Alloc(20)
+            p0 = mr_prog(al, [POP] + cons)
+            p1 = mr_prog(al, [("push", pq), ("recyc", rq)])
+            pre = [1] * 5 + [0] * (4 + 5 * npr)
+            counts = [(4 + 5 * npr) * len(cons), 6]
+            if len(cons) == 1 and (npr == 1 or tier == "thorough"):
+                ils = core.interleavings(counts)
+            else:
+                ils = [random_interleaving(rng, counts) for _ in range(1500 if tier == "quick" else 30000)]
+            for il in ils:
+                cases.append(core.fmt_case([400, npr], [p0, p1], pre + il))
     n_ex = len(cases)
     nrand = 8000 if tier == "quick" else 120000
     for _ in range(nrand):
@@ -397,19 +445,21 @@ def gen_mpscr(ctx, tier, rng):
             n = rng.randint(1, 6)
             ops = []
             for _ in range(n):
+                kindp = "recyc" if rng.random() < 0.3 else "push"
                 if t == 0:
-                    ops.append(("push", rng.choice(mine)) if mine and rng.random() < 0.3 else POP)
+                    ops.append((kindp, rng.choice(mine)) if mine and rng.random() < 0.3 else POP)
                 elif mine:
-                    ops.append(("push", rng.choice(mine)))
+                    ops.append((kindp, rng.choice(mine)))
             progs.append(mr_prog(al, ops))
-        total = sum(5 if o == PUSH else 4 + 5 * npr for p in progs for (o, _) in p)
+        total = sum(6 if o != POP else 4 + 5 * npr for p in progs for (o, _) in p)
         length = rng.randint(3, total + 5)
         cases.append(core.fmt_case([1200, npr], progs,
                                    core.random_sched(rng, len(progs), max(length, 5), rng.randrange(3))))
     for _ in range(300):      # sequential
         npr = rng.choice([1, 2, 3, 4])
         al = Alloc(20)
-        ops = [rng.choice([POP, ("push", rng.randrange(npr))]) for _ in range(rng.randint(1, 14))]
+        ops = [rng.choice([POP, POP, ("push", rng.randrange(npr)), ("recyc", rng.randrange(npr))])
+               for _ in range(rng.randint(1, 14))]
         cases.append(core.fmt_case([1200, npr], [mr_prog(al, ops)], []))
     # boundaries: 16 queues, counter far from a multiple of np, all empty
     al = Alloc(20)
